@@ -166,6 +166,9 @@ type BlockResult struct {
 	Bank     *[3]int64 // amount, used, requested
 	Skipped  bool      // legacy quirk: block committed with grading rows only
 	Notes    []string
+	// ForeignSPRPaid lists staking winners (entry hashes) whose signing key is
+	// not the key of a top-100 PEG holder although the declared staker id is.
+	ForeignSPRPaid []string
 	Ambiguous string // non-empty: the statement does not fix the outcome (e.g. tie at rank 100); comparison is skipped
 }
 
@@ -471,4 +474,15 @@ func gradeSPR(cfg world.Config, h uint32, entries []factom.Entry, eligible func(
 		g.AddSPR(e.Hash[:], ext, e.Content)
 	}
 	return g.Grade(), nil
+}
+
+// HeldHashes lists the entries still waiting in holding.
+func (l *Ledger) HeldHashes() []string {
+	var out []string
+	for _, h := range l.held {
+		if !l.executed[h.hash] {
+			out = append(out, h.hash)
+		}
+	}
+	return out
 }
